@@ -84,6 +84,11 @@ func TestVerifZipperWork(t *testing.T) {
 			}
 			blocks, over := 0, false
 			maxLit = 0
+			irBytes := 0
+			for _, r := range res {
+				irBytes += len(r.CanonicalIR)
+			}
+			ev["ir_bytes"] = irBytes
 			for _, r := range res {
 				fn := r.GetSSAFunction()
 				if fn == nil {
@@ -115,7 +120,7 @@ func TestVerifZipperWork(t *testing.T) {
 			timedOut = true
 			ev = map[string]any{"ev": "run", "family": c.Family, "size": c.Size, "completed": false, "panicked": false,
 				"budget_ms": budget, "wall_ms": budget + 2000, "blocks": 0, "oversized": false, "maxlit": 0,
-				"litcap": topology.MaxStringLiteralLen, "bytes": 0, "rejected": false}
+				"litcap": topology.MaxStringLiteralLen, "bytes": 0, "rejected": false, "ir_bytes": 0}
 		}
 		if _, ok := ev["wall_ms"]; !ok {
 			ev["wall_ms"] = 0
@@ -180,6 +185,14 @@ func TestVerifZipperWork(t *testing.T) {
 			uses, blocks := vfUses(oldFn)
 			zev["calls"], zev["total_cmp"], zev["worst_nold"], zev["worst_cmp"] = calls, total, worstN, worstC
 			zev["uses_old"], zev["blocks_old"] = uses, blocks
+			instrs := 0
+			for _, b := range oldFn.Blocks {
+				instrs += len(b.Instrs)
+			}
+			for _, b := range newFn.Blocks {
+				instrs += len(b.Instrs)
+			}
+			zev["instrs_old"] = instrs // instructions of the two functions being matched
 			enc.Encode(zev)
 		}
 	}
